@@ -15,6 +15,7 @@ DECIDED = [
     'R2: path enumeration over one iteration of the key loop of the container merge: every key of the newer mapping is attached (new key), merged in place, attached as merge result, or removed - removal only under an explicit delete flag.',
     'R3: every removal from the older tree in the merge functions is control-dependent on a delete flag of the newer node; the list pre-filter keeps all non-deleting nodes.',
     'R4: leaf rule table: the newer value replaces the older unless the older has strictly higher priority.',
+    'R6: every override of ayns.on_merge_impl is one of the implementations the rules decide; ConfigDict.ayns.on_merge_impl is a pure delegation to the container merge on every path.',
     'R5: lists replace wholesale by default (ConfigList._default_delete True, mappings False); a mapping merged onto a list validates every key strictly and raises MergeError before merging.',
 ]
 UNDECIDED = ['the algebraic law itself as data (equality with an independent fold);', 'leakage between stages through shared node objects.']
@@ -105,7 +106,36 @@ def r5(repo, run):
         run.ok('C02.R5', vi, '_validate_index raises IndexError for out-of-range indices when strict; normalises negative indices (%d rows)' % rows)
 
 
+MERGE_OVERRIDES = {'ConfigNode': 'leaf rule (R4)', 'ComposedNode': 'container merge (R2, R3)', 'ConfigList': 'index validation + pre-filter, then the container merge (R3, R5)',
+                   'FunctionNode': 'target / argument table (C13.R3), then the container merge', 'ConfigDict': 'pure delegation (R6)'}
+
+
+def r6(repo, run):
+    """merge implementations: every override of ayns.on_merge_impl is one the rules look at; ConfigDict's is a pure delegation to the
+    container merge on every path (no shortcut that keeps or drops content by itself)"""
+    for fi in repo.cha('on_merge_impl', ayns=True):
+        c = fi.cls.name
+        if c not in MERGE_OVERRIDES:
+            run.violation('C02.R6', fi, '%s.ayns.on_merge_impl' % c, 'merge rule overridden in %s outside the implementations the rules decide (%s)' % (c, sorted(MERGE_OVERRIDES)))
+        else:
+            run.ok('C02.R6', fi, '%s.ayns.on_merge_impl' % c, MERGE_OVERRIDES[c])
+    fi = repo.func('ConfigDict.ayns.on_merge_impl')
+    ps = fi.params()
+    bad = None
+    paths = tr.paths_of(repo, fi, no_inline=set(mt.NI), follow_exceptions=False)
+    for p in paths:
+        sup = [e for e in p.events if e.kind == 'call' and e.attr == 'on_merge_impl']
+        if p.status != 'return' or len(sup) != 1 or p.ret is None or p.ret.text != sup[0].result.text or [a.text for a in sup[0].args][-2:] != ps[1:3] \
+                or any(e.kind in ('store',) or (e.kind == 'call' and e is not sup[0] and e.callee != 'super') for e in p.events):
+            bad = p
+    if bad is not None or not paths:
+        run.violation('C02.R6', fi, 'ConfigDict.ayns.on_merge_impl', 'the mapping merge does not simply delegate to the container merge: a path %s [%s]' % (('returns ' + bad.ret.text[:50]) if bad is not None and bad.ret is not None else 'does something else', tr.describe(bad, 5) if bad is not None else ''))
+    else:
+        run.ok('C02.R6', fi, 'return super().ayns.on_merge_impl(prefix, other)', 'no mapping-specific shortcut')
+
+
 def check(repo, run, tier):
+    r6(repo, run)
     mr.flatten_fold(repo, run, 'C02.R1')
     mr.key_loop_paths(repo, run, 'C02.R2')
     mr.removal_guards(repo, run, 'C02.R3')
